@@ -286,7 +286,7 @@ Qed.
 (* ---- initial states ---- *)
 Lemma ssrc_init_items s : ssrc_items (ssrc_init s) = src_items s.
 Proof.
-  destruct s as [l|n|x n| |l|evs|evs]; simpl; try reflexivity.
+  destruct s as [l|n|x n| |l|evs|evs|e]; simpl; try reflexivity.
   unfold counter_items. rewrite Z.sub_0_r. apply map_ext. intros k. lia.
 Qed.
 
@@ -312,7 +312,7 @@ Lemma sinit_ok ae :
   (forall p, okz ae p -> sok ae (sinit p)) /\ (forall q, okl ae q -> slok ae (slinit q)).
 Proof.
   apply pipe_ind; simpl; intros; auto.
-  - destruct s; simpl in *; auto.
+  - destruct s; simpl in *; auto; contradiction.
   - destruct H0; auto.
   - split; [|exact I]. induction H as [|x t Hx Ht IH]; simpl in *; [exact I|].
     destruct H0 as [H1 H2]. split; auto.
